@@ -9,7 +9,6 @@ mod tport;
 mod trace;
 mod mmio;
 
-use std::io::Write;
 
 pub struct Ctx { pub tier_thorough: bool, pub seed: u64, pub rng: rng::Rng, pub tr: trace::Trace, pub release: bool }
 impl Ctx {
@@ -29,13 +28,12 @@ fn main() {
     let child = std::thread::Builder::new().stack_size(256 << 20).spawn(move || {
         let mut ctx = Ctx { tier_thorough: thorough, seed, rng: rng::Rng::new(seed), tr: trace::Trace::new(),
             release: !cfg!(debug_assertions) };
+        ctx.tr.out = Some(std::fs::File::create(&out).expect("create trace"));
         ctx.tr.comment(&format!("property={} tier={} seed={} profile={}", prop, if thorough {"thorough"} else {"quick"}, seed,
             if ctx.release {"release"} else {"debug"}));
         let ok = scen::run(&prop, &mut ctx);
         if !ok { eprintln!("unknown property {}", prop); std::process::exit(2); }
         ctx.tr.finish();
-        let mut f = std::fs::File::create(&out).expect("create trace");
-        f.write_all(ctx.tr.buf.as_bytes()).unwrap();
     }).unwrap();
     if child.join().is_err() { eprintln!("harness thread panicked"); std::process::exit(3); }
 }
